@@ -685,3 +685,11 @@ fn parse_dependencies_into_registry(
         }
     });
 }
+
+#[cfg(feature = "verif")]
+impl Debugee {
+    /// verification hook: read access to the registry's mapping table
+    pub fn verif_mappings(&self) -> Vec<(PathBuf, usize)> {
+        self.dwarf_registry.verif_mappings()
+    }
+}
